@@ -106,7 +106,17 @@ func runeHex(s string) string { return hx(string([]rune(s))) }
 func (c *Ctx) nearMiss(t *Node) string {
 	r := c.R
 	s := c.style(true).Render(t)
-	switch r.Intn(4) {
+	switch r.Intn(5) {
+	case 4:
+		// a name starting with a character names cannot start with; two blanks where the grammar allows one or two
+		switch r.Intn(3) {
+		case 0:
+			return pick(r, []string{"_", "-", ":", "9"}) + s
+		case 1:
+			return strings.Replace(s, " (", "  (", 1)
+		default:
+			return strings.Replace(s, " ", "  ", 1)
+		}
 	case 0:
 		// after one of the blanks
 		var idx []int
